@@ -13,6 +13,13 @@ a right-sized file | a dangling symlink) + shape of the `path` argument (ends in
 renamed, trailing slash, pathlib object, does not exist, is a regular file) + extra files + how
 `pieces` was made (real SHA-1s, dummy, invalid).  Every case is run without callback, with a
 passive callback, and with a callback cancelling at each call.
+
+Histories (harness/impl/c20hist.py, Lean: Torf.Model.FileSizeHistory, theorems C20_history_*): the
+statement is about the torrent *as it is when the check runs*, so the same judgement is made after
+every step of a history on one or more Torrent objects — size lookups (verify_filesize in every
+callback mode incl. cancelled, failing and callback-raises runs, verify, filetree, partial_size of
+files / directories / unknown paths, size / pieces / files) interleaved with edits of the metainfo
+(in place, by replacement, through the setters, copy()) and with changes of the disk.
 """
 import errno
 import itertools
@@ -23,6 +30,7 @@ import shutil
 from harness import common
 from harness.gen import layouts
 from harness.impl import content
+from harness.impl import c20hist
 
 K = 16384
 
@@ -44,14 +52,30 @@ def _m_d20a(case, observed, finding):
                for st, f in zip(case['disk'][:i], case['files'][:i]))
 
 
-MATCHERS = {}   # D20a was repaired in /repo (884cab4); its witness stays as a regression case
+def _m_d20b(case, observed, finding):
+    """D20b: partial_size() of the *empty* path on a torrent that is not multi-file (single-file, or no content):
+    the error path itself crashes (os.path.join() without arguments -> TypeError) instead of raising PathError.
+    Narrow: a partial_size lookup whose component list is empty, the object's metainfo at that moment has no file
+    list, and the observation is exactly that TypeError."""
+    op = case.get('lean_op') or {}
+    meta = case.get('meta') or {}
+    return (op.get('k') == 'lookup' and op.get('p') == [] and (meta.get('single') or meta.get('files') == [])
+            and observed == {'err': ['internal:TypeError']})
+
+
+# D20a was repaired in /repo (884cab4); its witness stays as a regression case
+MATCHERS = {'D20b_partial_size_empty_path': _m_d20b}
 
 RULE = ('case = (layout, per-file disk state, path shape, pieces kind, callback); exhaustive: every '
         'assignment of {ok, missing, -1, +1, dir(total = size), dir(total != size)} to <= 3 (thorough: 4) '
         'listed files x {no callback, passive, cancelling at call 1..n}; structured random: 1..9 files, '
         'nested paths, zero-length entries, multi-piece sizes, symlinks, renamed/missing/regular-file '
         'path argument, invalid torrents; non-trivial = (>= 2 listed files and >= 1 offending file) or a '
-        'cancelling callback or a directory involved; distinct = distinct case tuples')
+        'cancelling callback or a directory involved; distinct = distinct case tuples.  Histories: every (size lookup '
+        'kind: 15) x (metainfo edit: %d) x (disk = content of the old | new metainfo) on one three-file torrent + '
+        'structured random histories of 4..16 steps on 1..3 objects; every observed operation is one evaluation; '
+        'non-trivial = the operation comes after a change (edit / setter / copy / disk) that itself came after an '
+        'earlier size lookup; distinct = (history, operation index)' % len(c20hist.EX_EDITS))
 
 
 # --------------------------------------------------------------------------------------------
@@ -465,12 +489,122 @@ def evaluate(ctx, drv, cases):
                             'calls': obs['runs'][1]['calls'][:4], 'nocallback': obs['runs'][0]['res']})
 
 
+# --------------------------------------------------------------------------------------------
+# histories
+
+def _hist_public(h):
+    return {k: h[k] for k in ('history', 'init', 'steps', 'cseed', 'shape', 'label', 'topname') if k in h}
+
+
+def evaluate_histories(ctx, drv, hs):
+    import hashlib
+    import json
+    results = common.pmap(c20hist.run_chunk, common.split(hs, common.NPROC * 8))
+    flat = [x for chunk in results for x in chunk]
+    reqs, idx = [], []
+    for hi, (h, res) in enumerate(flat):
+        if 'harness_exc' in res:
+            ctx.machinery_error('harness could not run the history: ' + res['harness_exc'], _hist_public(h))
+            continue
+        reqs.append(res['lean'])
+        idx.append(hi)
+    replies = dict(zip(idx, drv.run(reqs)))
+    for hi, (h, res) in enumerate(flat):
+        if hi not in replies:
+            continue
+        pub = _hist_public(h)
+        hkey = hashlib.sha1(json.dumps(pub, sort_keys=True, default=str).encode()).hexdigest()[:16]
+        for pr in res['problems']:
+            ctx.violation(pr['what'], {'history': pub, 'step': pr['step']}, pr['expected'], pr['observed'],
+                          finding_matchers=MATCHERS)
+        if res['cut']:
+            ctx.dist['history-left-the-abstraction(cut)'] += 1
+        metas = list(res['lean']['objs'])
+        seen_lookup = changed_after_lookup = False
+        last_disk_or_edit = 0
+        steps = replies[hi]['steps']
+        for oi, (op, ob, rep) in enumerate(zip(res['lean']['ops'], res['obs'], steps)):
+            k = op['k']
+            cur = metas[op['o']] if op['o'] < len(metas) else None
+            if k in ('edit', 'setter'):
+                metas[op['o']] = op['meta']
+            elif k == 'copy':
+                metas.append(cur)
+            if k in ('edit', 'setter', 'copy'):
+                if seen_lookup:
+                    changed_after_lookup = True
+                if ob and ob.get('setter_error'):
+                    ctx.dist['history-setter-raised'] += 1
+                continue
+            # disk changes between lean ops: a disk step after a lookup also counts as a change
+            si = ob['step'] if ob else None
+            if si is not None and seen_lookup and any(st['op'] == 'disk' for st in h['steps'][last_disk_or_edit:si]):
+                changed_after_lookup = True
+            if si is not None:
+                last_disk_or_edit = si
+            was_seen = seen_lookup
+            seen_lookup = True
+            if ob is None:
+                continue                                  # the lookups inside verify(): nothing observable
+            case = {'history': pub, 'step': si, 'lean_op': {x: op[x] for x in op if x != 'fs'}, 'meta': cur}
+            if k == 'check':
+                case['fs'] = op['fs']
+            kind = k if k != 'check' else ('check-nocb' if op['cb'] is None else 'check-raises' if op['raises']
+                                           else 'check-passive' if op['cb'] == [] else 'check-cancel')
+            ctx.case(key=('hist', hkey, oi), nontrivial=was_seen and changed_after_lookup, kind=f"{h['shape']}/{kind}")
+            if rep.get('memoDiffers'):
+                ctx.dist['history-ops-on-which-the-memoising-variant-differs'] += 1
+            if not rep['hyp']:
+                ctx.dist['history-op-outside-hypothesis(not judged)'] += 1
+                continue
+            if not rep['modelEqSpec']:
+                ctx.machinery_error('history: model != spec although C20_history_spec is proved', case)
+                continue
+            impl, spec = ob['impl'], rep['spec']
+            ok = impl == spec
+            if k == 'lookupAll' and ob.get('extra_leaves'):
+                ok = False
+                impl = {'sizes': impl, 'extra_leaves': ob['extra_leaves']}
+            if ok and k == 'check' and 'raised' in impl['res'] and impl['res']['raised'][0] in ('read', 'verifyFileSize', 'verifyIsDir'):
+                first = 0 if rep['singleAtDir'] else next((i for i, e in enumerate(rep['errs']) if e is not None), None)
+                if ob['which'] != first:
+                    ok = False
+                    impl = dict(impl, which=ob['which'])
+                    spec = dict(spec, which=first)
+            if not ok:
+                what = {'check': 'verify_filesize() in a history deviates from the specification evaluated on the current '
+                                 'metainfo and disk (result / raised error / callback trace)',
+                        'lookup': 'partial_size() in a history deviates from the specification evaluated on the current metainfo',
+                        'lookupAll': 'filetree in a history deviates from the current metainfo',
+                        'props': 'size / pieces / files in a history deviate from the current metainfo'}[k]
+                ctx.violation(what, case, spec, impl, finding_matchers=MATCHERS)
+                continue
+            if impl != rep['model']:
+                ctx.corr_break('c20.history/' + k, case, rep['model'], impl)
+            if 'verify' in ob:
+                ctx.dist['history-verify'] += 1
+                if ob['verify'] is True:
+                    ctx.dist['history-verify-true'] += 1
+                    if impl['res'] != {'ok': True}:
+                        ctx.violation('verify() succeeds on a path on which verify_filesize() does not (same object, same '
+                                      'moment of a history)', case, {'verify_filesize': True},
+                                      {'verify': True, 'verify_filesize': impl['res']}, finding_matchers=MATCHERS)
+                # bookkeeping only (C02's business): verify() True outside C02's success condition
+                if (ob['verify'] is True) and not (rep['valid'] and rep['presentExact']):
+                    ctx.dist['history-verify-true-outside-C02-success-condition'] += 1
+            if k == 'check' and was_seen and changed_after_lookup and any(e is not None for e in rep['errs']) and len(ctx.samples) < 9 \
+                    and h['shape'] != 'hist-exhaustive':
+                ctx.sample({'history_steps': h['steps'], 'init': h['init'], 'at_step': si, 'meta_now': cur,
+                            'impl': impl}, limit=9)
+
+
 def run(ctx, drv):
     ctx.notes['rule'] = RULE
     ctx.notes['assumptions'] = [
         'the torrent has no content path of its own (as after Torrent.read); then validate() only looks at the metainfo '
         '(modelled: piece length positive multiple of 16 KiB, pieces non-empty multiple of 20 with ceil(size/piece length) digests)',
-        'layouts are well formed (DESIGN 6.1): pairwise distinct paths, components are plain names (no separator, not "", ".", "..")',
+        'layouts are well formed (DESIGN 6.1): pairwise distinct paths, components are plain names (no separator, not "", ".", ".."); '
+        'for partial_size of arbitrary paths additionally no listed path is a directory prefix of another',
         'the file system is abstracted per listed path to missing | regular file of size n | directory whose files total n; '
         'symlinks are followed, dangling links are "missing"; unreadable directories / races are not modelled',
         '"exists with exactly the recorded size" includes a directory whose files total the recorded size in a multi-file '
@@ -478,27 +612,41 @@ def run(ctx, drv):
         'float division in validate() is exact below 2^53',
         "full verification's success condition is C02's specification (AllGood and hashes match); the run-time cross-check "
         'uses the real verify()',
+        'histories: the metainfo of the moment is read back from the plain mapping torrent.metainfo (for edits through the '
+        'mapping it is compared with the harness\'s own shadow dict); what a setter does to the metainfo is not judged here; '
+        'the disk does not change while a call is in progress; a torrent without file list (mode None) is a multi-file '
+        'torrent with an empty list; a callback that raises ends the run like a cancelling one and its exception leaves '
+        'verify_filesize()',
     ]
-    corpus = []
+    corpus, hcorpus = [], []
     cdir = os.path.join(common.CORPUS_DIR, 'C20')
     if os.path.isdir(cdir):
         import json
         for fn in sorted(os.listdir(cdir)):
             if fn.endswith('.json'):
-                corpus.append(dict(json.load(open(os.path.join(cdir, fn)))['case'], shape='corpus'))
+                cc = json.load(open(os.path.join(cdir, fn)))['case']
+                if 'history' in cc:
+                    hcorpus.append(dict(cc['history'], shape='corpus-history'))
+                else:
+                    corpus.append(dict(cc, shape='corpus'))
     cases = corpus + gen_cases(ctx)
     evaluate(ctx, drv, cases)
+    evaluate_histories(ctx, drv, hcorpus + c20hist.gen_histories(ctx))
     ctx.exhaustive = False
 
 
 def search(ctx, drv):
     evaluate(ctx, drv, gen_cases(ctx, scale=3.0))
+    evaluate_histories(ctx, drv, c20hist.gen_histories(ctx, scale=3.0))
 
 
 def replay(ctx, drv, rp):
     c = dict(rp['case'])
-    c.pop('cb', None)
-    c.setdefault('shape', 'replay')
-    evaluate(ctx, drv, [c])
+    if 'history' in c:
+        evaluate_histories(ctx, drv, [dict(c['history'], shape=c['history'].get('shape', 'replay'))])
+    else:
+        c.pop('cb', None)
+        c.setdefault('shape', 'replay')
+        evaluate(ctx, drv, [c])
     return {'fails': bool(ctx.violations or ctx.corr_breaks), 'violations': ctx.violations,
             'corr_breaks': ctx.corr_breaks}
